@@ -822,6 +822,15 @@ func cmdCheck(spec propSpec, tier string) int {
 				incidental["known:"+f.Property+":"+f.Signature]++
 			} else {
 				incidental[v.Prop+":"+v.Sig]++
+				// the run went on past it, so there is no recorded tape: keep the seed, from which
+				// the run is regenerated with the other property as target
+				if incidental[v.Prop+":"+v.Sig] <= 2 && spec.Engine == "raft" {
+					idir := filepath.Join(replayDir, "incidental")
+					_ = os.MkdirAll(idir, 0755)
+					rb, _ := json.Marshal(replayFile{Property: v.Prop, Oracle: v.Oracle, Signature: v.Sig, Message: v.Msg, Step: v.Step,
+						Seed: r.Seed, Profile: r.Profile, Scale: ts.Scale, Target: v.Prop, SeedOnly: true})
+					_ = os.WriteFile(filepath.Join(idir, fmt.Sprintf("%s-%d.json", v.Prop, r.Seed)), rb, 0644)
+				}
 			}
 		}
 	}
@@ -1000,6 +1009,7 @@ type replayFile struct {
 	Tail      []string        `json:"events_tail"`
 	Hash      string          `json:"schedule_hash"`
 	Shrunk    bool            `json:"shrunk"`
+	SeedOnly  bool            `json:"seed_only,omitempty"`
 }
 
 func loadReplay(path string) (*replayFile, error) {
